@@ -407,13 +407,17 @@ func handle(line string) (res string) {
 			return "unsupported"
 		}
 		return "ok " + s
-	case op == "lint.wire" || op == "lint.kernel":
+	case op == "lint.wire" || op == "lint.kernel" || op == "lint.instances":
 		return handleWire(op, args)
 	}
 	return "bad-op"
 }
 
 func main() {
+	if len(os.Args) == 5 && os.Args[1] == "-rewrite" {
+		childMain(os.Args[2:])
+		return
+	}
 	in := bufio.NewReaderSize(os.Stdin, 1<<20)
 	realOut := os.Stdout
 	// the kernel prints progress with fmt.Printf: keep it away from the result stream
